@@ -67,6 +67,8 @@ def universe():
           (L('a'), W('x', 're', r'(?<=a)\d+')), (L('a/'), W('x', 're', r'(?<!/)\d+')),
           # a second continuation after a filtered wildcard that starts with another character than '/'
           (L('a/'), W('x', 'int'), L('-v'))]
+    # filters that also accept the empty text (the wildcard then takes nothing)
+    u += [(L('v/'), W('x', 're', r'\d*'), L('s')), (L('v/'), W('x', 're', 'p?'), L('/y')), (L('f/'), W('d', 're', r'(?:[a-z]+/)*'), L('i'))]
     # selector filters: one wildcard position shared by several rules, told apart by which group of the regex took part
     rx3 = '(img)|(doc)|(raw)'
     u += [(L('m/'), W('k', 'rex', (rx3, 1)), L('/'), W('n')), (L('m/'), W('k', 'rex', (rx3, 2)), L('/'), W('n')),
